@@ -71,6 +71,9 @@ def x_supervisor():
     _need(sched, r'n := s\.nodeByDN\(r\.dn\)\s*go func\(\) \{.*?res := n\.runnable\(n\.ctx\).*?died: &processorRequestDied\{\s*dn:\s*r\.dn,\s*err: res,', "processSchedule: goroutine runs the runnable, then offers the died request")
     _need(kill, r'cancels = append\(cancels, cur\.ctxC\).*?for _, c := range cancels \{\s*c\(\)', "processKill: every node's context cancelled")
     _need(loop, r'case <-ctx\.Done\(\):.*?s\.processKill\(\).*?return', "processor: context done: processKill, exit")
+    _need(loop, r'case r\.schedule != nil:\s*s\.processSchedule\(r\.schedule\)\s*markDirty\(\)\s*case r\.died != nil:\s*s\.processDied\(r\.died\)\s*markDirty\(\)',
+          "processor: every schedule and every died request marks the tree dirty (the model runs the GC unconditionally)")
+    _need(loop, r'case <-gc\.C:\s*if !clean \{\s*s\.processGC\(\)\s*\}\s*clean = true', "processor: GC tick runs processGC whenever the tree is dirty")
     out = ("(* supervisor_processor.go processGC: is a DONE node restartable only once its goroutine has returned (`curReady = cur.exited`)? *)\n"
            "Definition sup_done_ready_needs_exit : bool := %s.\n" % ("true" if needs_exit else "false"))
     return out, {"done_ready_needs_exit": needs_exit}
